@@ -493,6 +493,7 @@ func runC06Order(r *core.Run) {
 	for _, pm := range perms {
 		cmd := exec.Command(exe, "C06", "--worker", "order", pm)
 		out, err := cmd.Output()
+		core.Progress.Add(1)
 		if err != nil {
 			s.Incomplete("worker failed: " + err.Error())
 			continue
